@@ -4757,7 +4757,10 @@ def _make_segments(part):
                 segment_info[ss]["to"].append(
                     "Navigation2_" + segment_info[coda_time]["ID"]
                 )
-                segment_info[ss]["type"] = "leap_start"
+                # a segment that is itself the target of a jump (it starts at
+                # the segno) stays a leap destination
+                if segment_info[ss]["type"] != "leap_end":
+                    segment_info[ss]["type"] = "leap_start"
                 segment_info[ss]["info"].append("al coda")
 
             if boundary_type == "segno":
